@@ -85,6 +85,8 @@ type c07Chain struct {
 	gas     util.Uint160
 	policy  util.Uint160
 	nonce   uint32
+	// first failure of the pool premise seen after a PoolTx (pack kind)
+	poolNote string
 }
 
 func c07NewChain(cfg c07Cfg) *c07Chain {
